@@ -5,7 +5,7 @@ from .C01 import ASSUME
 
 def main(tier, seed):
     c = Check("C09", tier, seed)
-    jobs = [("props.store", "channel_store", ("C09",))]
+    jobs = [("props.store", "channel_store", ("C09",)), ("props.store", "tick_handler", ("C09",))]
     plan = [(1, 3, 4), (2, 2, 12)] if tier == "quick" else [(1, 4, 8), (2, 3, 16), (3, 2, 16)]
     for n, k, parts in plan:
         for i in range(parts):
@@ -17,7 +17,8 @@ def main(tier, seed):
         rule="n stored messages with symbolic status / retry_times / update_time, symbolic retry limit (1..3), interval and clock readings; k operations from {tick, ack, action, redo, clear}; "
              "after every operation each message is compared with the reference retry automaton (obligations are z3 validity queries)",
         assumptions=[a for a in ASSUME if "QuickJS" not in a] + [
-            "the tick is the body of the on_tick closure's message part (Store::with_no_response_messages) called with a recording handler",
+            "retry automaton: the tick is the body of the on_tick closure's message part (Store::with_no_response_messages) called with a recording handler; "
+            "a third driver goes through the engine's real on_tick closure (Emitter::emit_tick) with an idle engine / a running process / a finished process next to the message",
             "only the in-memory backend executes the queries; the SQLite execution of the same queries is outside the claim",
             "the clock is an arbitrary non-decreasing sequence of readings (one symbolic variable per reading)"],
         bounds=dict(plan="(messages, operations) in %s" % ([(n, k) for n, k, _ in plan],), retry_limit="1..3", status="0..3", retry_times="0..4"))
